@@ -65,6 +65,9 @@ def _load_vasp_header(
     # read cell parameters in angstrom, without the universal scaling factor.
     # each row is one cell vector
     cellvecs = np.array([[float(w) for w in next(lit).split()] for _ in range(3)])
+    if scaling < 0:
+        # A negative value is the volume of the cell, in cubic angstrom.
+        scaling = (-scaling / abs(np.linalg.det(cellvecs))) ** (1.0 / 3.0)
     cellvecs *= angstrom * scaling
 
     # note that in older VASP version the following line might be absent
